@@ -517,6 +517,10 @@ fn render_lhs(parts: &[(bool, Vec<Vec<u16>>, u8)], latex: bool) -> Truth {
 
 fn render_git(subject: &[u16], body: &[Vec<u16>], trailer: u8) -> Truth {
     let mut t = Truth::new("git-commit");
+    // editors and templates leave blank lines or a little indentation in front of the subject
+    let lead = ["", "", "", "\n", "  ", "\n ", " ", "\n\n", "\u{a0}"][trailer as usize % 9];
+    t.raw(lead);
+    t.class_pad = !lead.is_empty();
     t.sentence(subject);
     t.raw("\n\n");
     for l in body {
@@ -609,6 +613,20 @@ pub fn test_file(spec: &FileSpec, ctx: &mut CaseCtx) -> Result<(), String> {
 }
 
 fn test_file_with(spec: &FileSpec, ctx: &mut CaseCtx, server_wrappers: bool) -> Result<(), String> {
+    test_file_via(spec, ctx, server_wrappers, false)?;
+    // the command-line tool picks the front-end from the file name
+    if !server_wrappers {
+        if let FileSpec::Source { lang, .. } = spec {
+            if crate::frontends::extension_of(lang).is_some() {
+                test_file_via(spec, &mut CaseCtx::default(), false, true).map_err(|e| format!("[front-end chosen from the file name] {e}"))?;
+                ctx.class("front_end_chosen_from_file_name");
+            }
+        }
+    }
+    Ok(())
+}
+
+fn test_file_via(spec: &FileSpec, ctx: &mut CaseCtx, server_wrappers: bool, by_filename: bool) -> Result<(), String> {
     let Some(truth) = render(spec) else {
         return Ok(());
     };
@@ -618,6 +636,7 @@ fn test_file_with(spec: &FileSpec, ctx: &mut CaseCtx, server_wrappers: bool) -> 
     let source: Vec<char> = truth.text.chars().collect();
     let mut fe = Frontend::of(&truth.lang);
     fe.server_wrappers = server_wrappers;
+    fe.by_filename = by_filename;
     let dc = super::docsweep::DocCase {
         fe: fe.clone(),
         text: truth.text.clone(),
